@@ -42,6 +42,7 @@ PREDICT = {
     "nonmain_busy": [(0, 1, 0), (None, 0, 0)],
     "lockholder": [(None, 1, 0)],    # sleeping in a callback while holding the receive lock; the interrupt unwinds it
     "lockholder_inflight": [(None, 1, 0)],   # as lockholder, with one more message read by the receiver thread: it waits for the lock and never sees EOF
+    "main_idle_other_blocked": [(0, 0, 0)],   # a body outside the main thread that ends at once with EOFError; the main thread is idle in serve()
     "transfer": [(0, 1, 0)],         # send raises OSError once the connection is gone
     "endmarker_raiser": [(None, 1, 0)],   # a callback that raises when it is handed its endmarker by the epilogue; the body sleeps
     "inbound_transfer": [(0, 1, 0)], # receive() raises EOFError when the connection ends, also in the middle of a message
@@ -180,17 +181,17 @@ def main(tier, seed, replay=None):
 
 
 def real_layer(ck, tier, rng):
-    acts = ["idle", "blocked", "busy", "sleeping", "swallow", "threads", "nonmain_busy", "lockholder", "transfer", "sender", "sender_swallow", "endmarker_raiser", "callback_sysexit", "nondaemon_thread", "inbound_transfer", "lockholder_inflight"]
+    acts = ["idle", "blocked", "busy", "sleeping", "swallow", "threads", "nonmain_busy", "lockholder", "transfer", "sender", "sender_swallow", "endmarker_raiser", "callback_sysexit", "nondaemon_thread", "inbound_transfer", "lockholder_inflight", "main_idle_other_blocked"]
     hows = ["kill", "kill", "exit", "close"]
     jobs = []
     if tier == "quick":
         for a in acts:
-            jobs.append((a, rng.choice(hows), 1, rng.choice(["thread", "main_thread_only"]) if a not in ("nonmain_busy",) else "thread"))
+            jobs.append((a, rng.choice(hows), 1, rng.choice(["thread", "main_thread_only"]) if a not in ("nonmain_busy", "main_idle_other_blocked") else "thread"))
     else:
         for a in acts:
             for h in ("kill", "exit", "close"):
                 for em in ("thread", "main_thread_only"):
-                    if a == "nonmain_busy" and em != "thread":
+                    if a in ("nonmain_busy", "main_idle_other_blocked") and em != "thread":
                         continue
                     jobs.append((a, h, rng.choice([1, 2]), em))
     scratch = tempfile.mkdtemp(prefix="evh11-", dir="/var/tmp")
